@@ -521,3 +521,13 @@ def run(ck, prog):
 
 
 EXPLANATION += (' Threshold: the midpoint is stored in split_value only under a comparison with the upper value (found and fixed: for adjacent floats the midpoint rounds up to the upper value and rows change sides).')
+
+
+# ------------------------------------------------------------------ generic: `while counter < bound` loops advance their counter
+_run_pre_progress = run
+
+
+def run(ck, prog):
+    _run_pre_progress(ck, prog)
+    from sa import progress
+    progress.run_rule(ck, prog, set(DIMENSION_FILES))
